@@ -1,8 +1,8 @@
 \* a seeded random subset of SampleK documents of every stratum of MC_thorough.cfg (strata smaller than SampleK are complete) + all single-fault mutations
 SPECIFICATION Spec
 CONSTANTS
-  Strata = {"kopt", "ksel", "cross", "crossrej", "cross2", "sched", "hooks", "fault"}
-  SampleK = 1500
+  Strata = {"kopt", "kopt2", "ksel", "cross", "crossrej", "cross2", "sched", "hooks", "fault"}
+  SampleK = 1000
   AsIs = FALSE
 INVARIANTS DomainWellFormed FaithfulLoad Defaults FaultRejected GroupSnapshots Emit
 CHECK_DEADLOCK FALSE
